@@ -126,7 +126,7 @@ class Evaluator(Folder):
 
     def _truth(self, e: ast.expr) -> bool:
         v = self.fold(e)
-        if isinstance(v, Abstract) and not isinstance(v, Sym):
+        if isinstance(v, Abstract) and not isinstance(v, Sym) and not isinstance(v, APath) and "__bool__" not in type(v).__dict__ and not any("__bool__" in k.__dict__ or "__len__" in k.__dict__ for k in type(v).__mro__[:-1] if k is not Abstract):
             raise Unfoldable("truth value of an abstract value: " + unparse(e))
         return bool(v)
 
@@ -150,8 +150,13 @@ class Evaluator(Folder):
         elif isinstance(st, ast.For):
             it = self.fold(st.iter)
             proto = isinstance(it, Abstract) and hasattr(it, "loop_begin")
+            import itertools as _it
+
             try:
-                items = it.loop_items() if proto else list(it)
+                if isinstance(it, _it.count):
+                    items = _it.islice(it, 100000)  # an endless counter: the loop has to leave by return / break / raise
+                else:
+                    items = it.loop_items() if proto else list(it)
             except TypeError:
                 raise Unfoldable("not iterable: " + unparse(st.iter))
             broke = False
@@ -369,6 +374,22 @@ class AObj(Sym):
 
     def __repr__(self) -> str:
         return "<%s %s>" % (self._cls_.name, ", ".join("%s=%r" % kv for kv in sorted(self.__dict__.items()) if not kv[0].endswith("_") or not kv[0].startswith("_")))
+
+    def __getattr__(self, name: str) -> Any:
+        # a method of the instance's class, for rule-side models that call back into evaluated objects (e.g. a visitor)
+        if name.startswith("__") or "_cls_" not in self.__dict__:
+            raise AttributeError(name)
+        m = self._ctx_.repo.lookup_method(self._cls_, name)
+        if m is None or m.is_property:
+            raise AttributeError(name)
+        from .fold import _CURRENT
+
+        def bound(*a: Any, **k: Any) -> Any:
+            if not _CURRENT:
+                raise Unfoldable("%s.%s called outside an evaluation" % (self._cls_.name, name))
+            return _BoundMethod(self, m).call(_CURRENT[-1], list(a), k)
+
+        return bound
 
     # -- instances of a class-syntax NamedTuple are records: ordered fields, value equality, unpacking, indexing
     def _record(self) -> Optional[List[str]]:
